@@ -2,3 +2,4 @@ import Proofs.CursorLemmas
 import Proofs.ImplV2
 import Proofs.Waveform
 import Proofs.Beatgrid
+import Proofs.ImplV2Lists
